@@ -22,7 +22,7 @@ def model_runs(ctx):
     tier = ctx.tier
     cfg = "Surround_mc_quick.cfg" if tier == "quick" else "Surround_mc_thorough.cfg"
     r = ctx.mc("Surround_mc", cfg, what="Surround theorems over objects x rates x frame sizes x bitrate grid",
-               deadlock=True, workers=min(vf.NCPU, 12), timeout=2400 if tier == "thorough" else 600, heap="10g")
+               deadlock=True, workers=min(vf.NCPU, 12), timeout=2400 if tier == "thorough" else 600, heap="6g")
     if r.violation:
         raise vf.Infra("Surround design theorem %s refuted on the model:\n%s" % (r.violation, r.state_dump[:2500]))
     plan, tags = [], set()
@@ -240,8 +240,8 @@ def judge(ctx, exe, trace_path, what, rerun=True):
     n = vf.count_lines(trace_path)
     if n == 0:
         return 0
-    nparts = max(1, min(vf.NCPU, n // 150))
-    rej, total = vf.validate_cases(ctx, "SurroundTrace", "SurroundTrace.cfg", trace_path, what, nparts=nparts, heap="3g")
+    nparts = max(1, min(10, n // 150))
+    rej, total = vf.validate_cases(ctx, "SurroundTrace", "SurroundTrace.cfg", trace_path, what, nparts=nparts, heap="2g")
     bad_total = 0
     shown = 0
     for p, ln, tr in rej:
